@@ -118,6 +118,11 @@ impl Case {
         if *cap == 0 {
             return false;
         }
+        // with the short flush interval a drain that pops 32 entries consults the clock (the result is
+        // timing dependent); keep such scripts below 32 entries so that no drain can get there
+        if self.short && self.ops.iter().filter(|o| matches!(o, Op::Append(..))).count() >= 32 {
+            return false;
+        }
         let mut live = vec![true];
         let mut join_held = true;
         for op in &self.ops[1..] {
@@ -227,6 +232,7 @@ fn gen_case(rng: &mut Rng, p: &Profile) -> Case {
     let mut live = vec![true];
     let mut join_held = true;
     let n = rng.range(3, p.max_len);
+    let mut n_appends = 0usize;
     // sometimes start with an open gate (the writer is not stalled at all)
     if rng.chance(1, 5) {
         ops.push(Op::Gate(rng.range(1, 40) as usize));
@@ -256,7 +262,11 @@ fn gen_case(rng: &mut Rng, p: &Profile) -> Case {
             // bursts: fill the ring beyond its capacity now and then
             let burst = if rng.chance(1, 6) { rng.range(1, cap as u64 + 2) } else { 1 };
             for _ in 0..burst {
+                if short && n_appends >= 31 {
+                    break; // see `valid`
+                }
                 ops.push(Op::Append(h, r));
+                n_appends += 1;
             }
         } else if pick(p.w_gate) {
             let k = match rng.below(4) {
@@ -1324,9 +1334,9 @@ fn main() {
         }
         let n = match (prop.as_str(), args.thorough()) {
             ("C04", false) => 150,
-            ("C04", true) => 8000,
+            ("C04", true) => 20000,
             (_, false) => 300,
-            (_, true) => 15000,
+            (_, true) => 50000,
         };
         for _ in 0..n {
             cases.push(gen_case(&mut rng, &p));
@@ -1334,7 +1344,7 @@ fn main() {
         if prop == "C04" {
             hww = hww_cases(&mut rng, args.thorough());
         }
-        let n_tr = if args.thorough() { 4000 } else { 100 };
+        let n_tr = if args.thorough() { 10000 } else { 100 };
         let mut trng = rng.fork(77);
         for _ in 0..n_tr {
             traces.push(gen_trace(&mut trng, &prop));
